@@ -47,7 +47,118 @@ class C12(EngineProp):
             # a bystander: a well-formed fragmented request of the peer whose first fragment arrives before the script and whose last
             # fragment arrives after it ("requests on other streams - concurrent or subsequent - are still served correctly")
             c['bystander'] = rng.random() < 0.5
+        for _ in range(40 if tier == 'quick' else 600):
+            odd = [rng.choice([('text', b'hello'), ('text', b''), ('text', bytes(rng.getrandbits(8) for _ in range(12))), ('ping', b''), ('pong', b'x'), ('bin', b''), ('bin', b'\xee')])
+                   for _ in range(rng.randint(1, 3))]
+            out.append({'kind': 'ws', 'role': 'server', 'profile': 'ws', 'which': rng.choice(['aiohttp-server', 'aiohttp-client']), 'odd': [[k, d.hex()] for k, d in odd]})
         return out
+
+    def run_impl(self, case):
+        if case.get('kind') == 'ws':
+            from harness import detloop
+            return detloop.run(self._ws, case)
+        return super().run_impl(case)
+
+    async def _ws(self, loop, case):
+        # a websocket peer is not bound to binary messages: text, ping / pong and close messages are peer input too. A real server on the
+        # library's server-side websocket transports, fed by a fake websocket: requests before and after the odd message must be served
+        import asyncio
+        import aiohttp
+        from rsocket.rsocket_server import RSocketServer
+        from rsocket.request_handler import BaseRequestHandler
+        from rsocket.helpers import create_future
+        from rsocket.payload import Payload
+        from rsocket import frame as F
+        from harness.engine import build_frame
+        sent = []
+
+        class H(BaseRequestHandler):
+            async def request_response(self, payload):
+                return create_future(Payload(b'echo:' + bytes(payload.data or b'')))
+
+        def req(sid, tag):
+            return build_frame({'ty': 'REQUEST_RESPONSE', 'sid': sid, 'data': [tag]}).serialize()
+        msgs = [('bin', build_frame({'ty': 'SETUP', 'sid': 0, 'data': [1]}).serialize()), ('bin', req(1, 11))]
+        for kind, hx in case['odd']:
+            msgs.append((kind, bytes.fromhex(hx)))
+        msgs.append(('bin', req(3, 13)))
+        gate = asyncio.Event()
+
+        class Msg:
+            def __init__(self, kind, data):
+                self.type = {'bin': aiohttp.WSMsgType.BINARY, 'text': aiohttp.WSMsgType.TEXT, 'ping': aiohttp.WSMsgType.PING, 'pong': aiohttp.WSMsgType.PONG}[kind]
+                self.data = data
+
+        class WS:
+            def __aiter__(self):
+                async def it():
+                    for kind, data in msgs:
+                        yield Msg(kind, data.decode('latin-1') if kind == 'text' else data)
+                    await gate.wait()          # the connection stays open
+                return it()
+
+            async def send_bytes(self, b):
+                sent.append(bytes(b))
+
+            async def close(self):
+                gate.set()
+        if case['which'] == 'aiohttp-server':
+            from rsocket.transports.aiohttp_websocket import TransportAioHttpWebsocket
+            t = TransportAioHttpWebsocket(WS())
+            pump = asyncio.ensure_future(t.handle_incoming_ws_messages())
+        else:
+            from rsocket.transports.aiohttp_websocket import TransportAioHttpClient
+            t = TransportAioHttpClient(websocket=WS())
+            t._connection_ready.set()
+            pump = asyncio.ensure_future(t.handle_incoming_ws_messages())
+        server = RSocketServer(t, handler_factory=H)
+        await loop.settle()
+        await loop.advance(10)
+        answered = {}
+        for b in sent:
+            fr = F.parse_or_ignore(b)
+            if isinstance(fr, F.PayloadFrame):
+                answered[fr.stream_id] = bytes(fr.data or b'').hex()
+        res = {'answered': answered, 'pump_ended': pump.done(), 'pump_error': (type(pump.exception()).__name__ if pump.done() and not pump.cancelled() and pump.exception() else None),
+               'receiver_alive': server._receiver_task is not None and not server._receiver_task.done()}
+        gate.set()
+        try:
+            await server.close()
+        except Exception:
+            pass
+        pump.cancel()
+        return res
+
+    def model_lines(self, case, obs):
+        return [] if case.get('kind') == 'ws' else super().model_lines(case, obs)
+
+    def compare(self, case, obs, answers):
+        return None if case.get('kind') == 'ws' else super().compare(case, obs, answers)
+
+    def nontrivial(self, case, obs):
+        if case.get('kind') == 'ws':
+            import json
+            return json.dumps(case, sort_keys=True)
+        return super().nontrivial(case, obs)
+
+    def stats(self, case, obs):
+        if case.get('kind') == 'ws':
+            yield 'kind=websocket-non-binary-messages'
+            return
+        yield from super().stats(case, obs)
+
+    def shrink_candidates(self, case):
+        if case.get('kind') == 'ws':
+            for i in range(len(case['odd'])):
+                if len(case['odd']) > 1:
+                    yield dict(case, odd=case['odd'][:i] + case['odd'][i + 1:])
+            return
+        yield from super().shrink_candidates(case)
+
+    def explicit(self, case, obs):
+        if case.get('kind') == 'ws':
+            return case
+        return super().explicit(case, obs)
 
     async def prologue(self, loop, H, case):
         if case.get('bystander'):
@@ -101,6 +212,13 @@ class C12(EngineProp):
 
     def oracle(self, case, obs):
         fails = []
+        if case.get('kind') == 'ws':
+            want = {'1': '6563686f3a0b', '3': '6563686f3a0d'}
+            got = {str(k): v for k, v in obs['answered'].items()}
+            if got != want:
+                fails.append({'signature': 'request-not-served-after-non-binary-websocket-message', 'what': '%s transport, messages %s between two requests: answered %s, expected both (pump ended: %s %s; receiver alive: %s)' % (
+                    case['which'], case['odd'], got, obs['pump_ended'], obs['pump_error'], obs['receiver_alive'])})
+            return fails
         ex = obs['extra']
         ended_by_script = any(s.get('op') in ('lost', 'close') for g in obs.get('script', []) for s in g)
         if ex and ex['closed'] and not ended_by_script:
